@@ -27,6 +27,13 @@ type Chain struct {
 	Records []*BlockRecord                // committed heights in order
 	Time    uint64
 	last    *Node // the node driven last (see enter)
+	gen     *fsm.GenesisState
+	tweak   func(c *lib.Config)
+	valKeys []crypto.PrivateKeyI
+	// NodeOpts may adjust the options of node i before it is built (file system, memtable size)
+	NodeOpts func(i int, o *Options)
+	// OnNode is applied to every node the chain builds or re-opens (ex. put it in the common governance-vote mode)
+	OnNode func(n *Node)
 }
 
 // enter is called before a node is driven. All nodes of a test binary share canopy's process-wide caches (the block
@@ -58,7 +65,7 @@ func BLSKey(i int) crypto.PrivateKeyI {
 		return k
 	}
 	seed := make([]byte, 32)
-	seed[0], seed[1], seed[2], seed[31] = byte(i+1), byte((i+1)>>8), 0xB1, 0x33
+	seed[0], seed[1], seed[29], seed[30], seed[31] = 0x01, 0xB1, byte((i+1)>>8), byte(i+1), 0x33 // below the group order
 	k, err := crypto.BytesToBLS12381PrivateKey(seed)
 	if err != nil {
 		panic(err)
@@ -127,23 +134,60 @@ func (g *GenesisSpec) Build() *fsm.GenesisState {
 }
 
 // NewChain builds nNodes nodes on the same genesis; node i runs with validator key i (mod validators).
-func NewChain(spec *GenesisSpec, nNodes int, tweak func(c *lib.Config)) (*Chain, error) {
-	ch := &Chain{ChainID: spec.ChainID, Keys: map[string]crypto.PrivateKeyI{}, Time: 1_700_000_100_000_000}
+func NewChain(spec *GenesisSpec, nNodes int, tweak func(c *lib.Config), nodeOpts ...func(i int, o *Options)) (*Chain, error) {
+	ch := &Chain{ChainID: spec.ChainID, Keys: map[string]crypto.PrivateKeyI{}, Time: 1_700_000_100_000_000, tweak: tweak}
+	if len(nodeOpts) > 0 {
+		ch.NodeOpts = nodeOpts[0]
+	}
 	for _, v := range spec.Validators {
 		ch.Keys[lib.BytesToString(v.Key.PublicKey().Bytes())] = v.Key
+		ch.valKeys = append(ch.valKeys, v.Key)
 	}
-	gen := spec.Build()
+	ch.gen = spec.Build()
 	for i := 0; i < nNodes; i++ {
-		n, err := New(Options{Name: fmt.Sprintf("n%d", i), ChainID: spec.ChainID, Key: spec.Validators[i%len(spec.Validators)].Key, Genesis: gen, Tweak: tweak})
-		if err != nil {
+		if _, err := ch.AddNode(); err != nil {
 			return nil, err
 		}
-		if err = n.Start(); err != nil {
-			return nil, err
-		}
-		ch.Nodes = append(ch.Nodes, n)
 	}
 	return ch, nil
+}
+
+// AddNode builds one more node on the chain's genesis (a late joiner starts at height 1) and returns its index.
+func (ch *Chain) AddNode() (int, error) {
+	i := len(ch.Nodes)
+	o := Options{Name: fmt.Sprintf("n%d", i), ChainID: ch.ChainID, Key: ch.valKeys[i%len(ch.valKeys)], Genesis: ch.gen, Tweak: ch.tweak}
+	if ch.NodeOpts != nil {
+		ch.NodeOpts(i, &o)
+	}
+	n, err := New(o)
+	if err != nil {
+		return 0, err
+	}
+	ch.enter(n)
+	if err = n.Start(); err != nil {
+		return 0, err
+	}
+	if ch.OnNode != nil {
+		ch.OnNode(n)
+	}
+	ch.Nodes = append(ch.Nodes, n)
+	return i, nil
+}
+
+// Restart re-opens node i on its file system (process restart) and replaces it in the chain.
+func (ch *Chain) Restart(i int) error {
+	ch.last = nil
+	store.VerifPurgeProcessCaches()
+	m, err := ch.Nodes[i].Reopen()
+	if err != nil {
+		return err
+	}
+	if ch.OnNode != nil {
+		ch.OnNode(m)
+	}
+	ch.Nodes[i] = m
+	ch.last = m
+	return nil
 }
 
 // AddKey registers another validator key (for validators that stake later).
